@@ -46,6 +46,16 @@ Theorem C11_pooled_all_or_nothing : forall (reqs : list (nat * cfg * outcome)) (
 Proof. exact pooled_all_or_nothing. Qed.
 Print Assumptions C11_pooled_all_or_nothing.
 
+(* Overlapping requests: in every interleaving of request starts (GetBuffer) and returns (ReleaseBuffer,
+   once per request, as ServeHTTPBuffered's single deferred call does), whichever buffers the pool hands
+   out, no buffer is held by two in-flight requests or held while it is in the pool - each render owns its
+   buffer, so its response is the sequential one above.  (What overlapping renders do to a buffer they do
+   share is the subject of C14.) *)
+Theorem C11_pool_discipline : forall tr : list pev,
+  forallb single_release tr = true -> NoDup (p_free (prun tr) ++ p_held (prun tr)).
+Proof. exact pool_discipline. Qed.
+Print Assumptions C11_pool_discipline.
+
 (* The decidable predicate the harness evaluates on real responses is the specification. *)
 Theorem C11_checker_is_specification : forall st ct eh doc failed r,
   all_or_nothing_b st ct eh doc failed r = true <-> all_or_nothing st ct eh doc failed r.
@@ -116,4 +126,14 @@ Proof. vm_compute. reflexivity. Qed.
 Example C11_ex_streamed_status :
   observe (serve {| c_status := 201; c_ctype := bs "text/html"; c_errh := None; c_stream := true |} {| chunks := []; fails := true |})
   = {| r_status := 201; r_hdr := [(h_ctype, bs "text/html")]; r_body := err_body |}.
+Proof. vm_compute. reflexivity. Qed.
+(* two requests in flight, then both return, then two more start: all single releases *)
+Example C11_ex_overlap_trace :
+  let tr := [EGet 0; EGet 0; ERel 1; ERel 0; EGet 0; EGet 0]%nat in
+  forallb single_release tr = true /\ p_held (prun tr) = [0; 1]%nat.
+Proof. vm_compute. split; reflexivity. Qed.
+(* a request that releases its buffer twice puts it into the pool twice: the next two overlapping requests
+   render into the same buffer *)
+Example C11_ex_double_release :
+  p_held (prun [EGet 0; ERelTwice 0; EGet 0; EGet 0]%nat) = [0; 0]%nat.
 Proof. vm_compute. reflexivity. Qed.
